@@ -15,8 +15,8 @@
 (* reaches the "Sorting failed" test: it dies on the index).               *)
 (***************************************************************************)
 EXTENDS Integers, Sequences, FiniteSets, TLC, Json
-MaxLen == 3
-NameIds == 1..3
+CONSTANTS MaxLen, NNames
+NameIds == 1..NNames
 SeqsOf(n) == [1..n -> NameIds]
 VARIABLES call
 Init == \E n \in 1..MaxLen, m \in 1..MaxLen : call \in [names : SeqsOf(n), req : SeqsOf(m)]
